@@ -76,7 +76,7 @@ _BX_CLAUSES = {
 # invariant (disjoint, aligned, inside the capacity) as a precondition.  A unit listed for them with
 # `dep: True` is a unit that establishes this precondition; its failures count for the dependent property
 # when they count for one of the properties it depends on.
-DEPENDS_ON = {'C04': ['C01', 'C02'], 'C05': ['C01', 'C02'], 'C06': ['C01', 'C02'], 'C07': ['C01', 'C02']}
+DEPENDS_ON = {'C04': ['C01', 'C02'], 'C05': ['C01', 'C02'], 'C06': ['C01', 'C02'], 'C07': ['C01', 'C02'], 'C15': ['C01', 'C02'], 'C16': ['C01', 'C02']}
 
 
 def relevant(pid, spec, r, f):
@@ -400,20 +400,6 @@ PROPERTIES['C07'] = {
 }
 
 
-def layout_deps(tier):
-    """the units that establish the layout precondition of the generated-code properties (see DEPENDS_ON)"""
-    return [dict(u, dep=True) for u in [V_LAYOUT] + bx_units(tier) + [k_simple(tier), K_DEF]]
-
-
-DEP_NOTE = (' The contracts of the generated code take the layout invariant of the definition (fields disjoint, aligned, inside the published capacity) as a precondition; '
-            'the units that establish it (layout, simple stand-in, kani-simple-leaves, kani-definition: see C01/C02) are run here too and a failed layout obligation is reported for this property as well.')
-for _p in ('C04', 'C05', 'C06', 'C07'):
-    PROPERTIES[_p]['explanation'] += DEP_NOTE
-PROPERTIES['C04']['units'] = lambda tier: [GK] + layout_deps(tier)
-PROPERTIES['C05']['units'] = lambda tier: [GK] + layout_deps(tier)
-PROPERTIES['C06']['units'] = lambda tier: [GK] + layout_deps(tier)
-PROPERTIES['C07']['units'] = lambda tier: [GK, K_DATA, CALLSITES] + layout_deps(tier)
-
 PROPERTIES['C17'] = {
     'level': 'model_checking', 'units': lambda tier: [{'kind': 'bxt', 'name': 'types-standin'}],
     'explanation': 'The type-name pipeline (std::any::type_name -> syn::parse_str -> path rewriting visitor -> quote -> to_string) and the table lookup keyed by its output '
@@ -513,3 +499,21 @@ BXH = {'kind': 'bxh', 'name': 'builder-history'}
 PROPERTIES['C12']['units'] = lambda tier: [V_BUILDER, V_GENERIC, V_NATIVE, K_B5, BXH, V_LAYOUT] + bx_units(tier) + [K_DEF]
 PROPERTIES['C12']['unchecked'] = ['native builder: remove_datum and build are extracted and proved to delegate (unit native); close_record_variant(_with) and the lookups are one-line delegations that are not extracted',
                                   'name lookups are checked by Kani on a bounded family of states only (unit kani-builder-lookup); Verus uses their contract as an assumption']
+
+
+def layout_deps(tier):
+    """the units that establish the layout precondition of the generated-code properties (see DEPENDS_ON)"""
+    return [dict(u, dep=True) for u in [V_LAYOUT] + bx_units(tier) + [k_simple(tier), K_DEF]]
+
+
+DEP_NOTE = (' The contracts of the generated code take the layout invariant of the definition (fields disjoint, aligned, inside the published capacity) as a precondition; '
+            'the units that establish it (layout, simple stand-in, kani-simple-leaves, kani-definition: see C01/C02) are run here too and a failed layout obligation is reported for this property as well.')
+for _p in ('C04', 'C05', 'C06', 'C07', 'C15', 'C16'):
+    PROPERTIES[_p]['explanation'] += DEP_NOTE
+PROPERTIES['C04']['units'] = lambda tier: [GK] + layout_deps(tier)
+PROPERTIES['C05']['units'] = lambda tier: [GK] + layout_deps(tier)
+PROPERTIES['C06']['units'] = lambda tier: [GK] + layout_deps(tier)
+PROPERTIES['C07']['units'] = lambda tier: [GK, K_DATA, CALLSITES] + layout_deps(tier)
+PROPERTIES['C15']['units'] = lambda tier: [GK] + layout_deps(tier)
+PROPERTIES['C16']['units'] = lambda tier: [GK, GKN] + layout_deps(tier)
+
